@@ -41,6 +41,7 @@ def run(cx):
     cx.rule("R09e", "ColorFmt and ColorBytes build their sequences identically (only make_bytes differs)")
     cx.rule("R09f", "numeric mappings follow the SGR / xterm-256 tables")
     cx.rule("R09g", "_make_seq_element returns an element or raises ValueError on every path")
+    cx.rule("R09i", "the bytes formatter receives bytes on every path of make()")
     cx.rule("R09h", "validation cannot be bypassed by memoisation: the validating / emitting functions are not cached by argument equality")
     cx.trust("ECMA-48 SGR parameters 1,2,4,5,9,3x,4x,38:5:n,48:5:n and reset 0; xterm 256-colour cube 16+36r+6g+b and grey ramp 232..255")
 
@@ -130,6 +131,7 @@ def run(cx):
               f"hits the cache and is never validated (no ValueError), and outputs acquire a memory", stmt=f"def {f.name}(...) [decorators]")
     # ------------------------------------------------------------------ R09b / R09d in make
     cx.guard(_check_make, cx, make, elem, sh)
+    cx.guard(_bytes_on_every_path, cx, make)
     # ------------------------------------------------------------------ R09g / R09f in _make_seq_element
     cx.guard(_check_elem, cx, elem, mod)
     # ------------------------------------------------------------------ R09c chunk construction sites
@@ -515,3 +517,35 @@ def _check_str(cx, repo):
             ok2 = len(j) == 1 and const(j[0].func.value, str) and j[0].func.value.value == "" and isinstance(j[0].args[0], ast.GeneratorExp) and \
                 norm(j[0].args[0].generators[0].iter) == "self.chunks" and not j[0].args[0].generators[0].ifs
             cx.ob("R09b", f, ok2, "all chunks, in order, nothing in between" if ok2 else "CHText.__str__ does not concatenate all chunks in order", stmt=q + " [join]")
+
+
+def _bytes_on_every_path(cx, make):
+    """make(..., make_bytes) serves the text and the bytes formatter.  Every return must have passed the `make_bytes` decision
+    (the step that encodes both sequences) or be written as an encoded / conditional value itself; a return that leaves before
+    that step hands `str` to ColorBytes, whose __call__ then concatenates str and bytes."""
+    from sa.cfg import CFG
+    pm = [p_ for p_ in params(make) if "bytes" in p_]
+    cx.need(len(pm) == 1, "R09i", make, "the make_bytes parameter")
+    mb = pm[0]
+    g = CFG(make)
+    deciders = [st for st in walk_local(make) if isinstance(st, ast.If) and mb in names_in(st.test)]
+    rets = [r for r in walk_local(make) if isinstance(r, ast.Return)]
+    cx.need(rets, "R09i", make, "returns of make")
+    n = 0
+    for r in rets:
+        n += 1
+        v = r.value
+        self_sufficient = v is not None and (mb in names_in(v) or any(isinstance(c, ast.Call) and call_name(c) == "encode" for c in ast.walk(v))
+                                             or any(isinstance(c, ast.Constant) and isinstance(c.value, bytes) for c in ast.walk(v)))
+        under = any(mb in names_in(e) for e, pol in facts(r))
+        if self_sufficient or under:
+            cx.ob("R09i", r, True, "the returned pair depends on make_bytes")
+            continue
+        cx.need(deciders, "R09i", make, "the step that encodes the sequences for the bytes formatter")
+        rn = g.node_of(r)
+        avoid = {g.node_of(d).id for d in deciders if g.node_of(d) is not None}
+        path = g.reach_avoiding(g.entry, {rn.id}, avoid, follow_raise=False) if rn is not None else None
+        cx.ob("R09i", r, path is None, "reached only after the make_bytes decision" if path is None else
+              f"`{norm(r)}` is reached without the make_bytes decision (lines {[getattr(p_.ast, 'lineno', None) for p_ in path if getattr(p_, 'ast', None) is not None][-6:]}): "
+              "the bytes formatter gets str sequences and fails / mixes types when applied to bytes")
+    cx.counts["R09i:returns of make"] = n
